@@ -61,6 +61,7 @@ def run(ctx) -> None:
     ctx.section("length-first", _length_first, ctx)
     ctx.section("pairing", _pairing, ctx)
     ctx.section("table", _table, ctx)
+    ctx.section("recursion-order", _recursion_order, ctx)
     ctx.section("wrappers", _wrappers, ctx)
     ctx.section("resolve", _resolve, ctx)
     ctx.not_decided += ["numeric equality of results (delegated to Python's operator)", "dtype of results (C03/C04)",
@@ -683,6 +684,46 @@ def _pairing(ctx) -> None:
         raise AnalysisError(f"__radd__: expected a paired and a scalar element computation, found {k}")
 
 
+def _recursion_order(ctx) -> None:
+    """The 2-D branches of the two vector kernels recurse column by column in the WRITTEN operand order: with the table on the left
+    every column is the receiver and the other operand the argument (C + other); with the table on the right `self` is the receiver
+    and the column the argument (self + C) - swapped, v - T computes T - v."""
+    from ..sites2 import interp_of
+    from ..symx import show, subterms
+    prog = ctx.prog
+    for q, kname in (("vector.Vector._elementwise_operation", "_elementwise_operation"), ("vector.Vector._elementwise_compare", "_elementwise_compare")):
+        f = prog.func(q)
+        it = interp_of(prog, f)
+        SELF, OTHER = ("param", f.params[0]), ("param", f.params[1])
+        oth = (OTHER, ("call", ("attr", SELF, "_check_duplicate"), (OTHER,), ()))
+        scols = ("call", ("attr", SELF, "cols"), (), ())
+        ocols = tuple(("call", ("attr", o, "cols"), (), ()) for o in oth)
+        probs, n = [], 0
+        seen = set()
+        for e in it.events:
+            for t in (e.term, e.value):
+                if t is None:
+                    continue
+                for x in subterms(t):
+                    if not (x[0] == "call" and x[1][0] == "attr" and x[1][2] == kname and x[2]) or x in seen:
+                        continue
+                    seen.add(x)
+                    recv, arg = x[1][1], x[2][0]
+                    col_of = lambda t_: "self" if (t_[0] == "elem" and t_[1] in (scols, ("attr", SELF, "_underlying"))) else \
+                        "other" if (t_[0] == "elem" and t_[1] in ocols) else None
+                    if col_of(recv) == "self" or col_of(arg) == "self":
+                        n += 1
+                        if not (col_of(recv) == "self" and arg in oth):
+                            probs.append(f"table on the left: `{show(x, it)[:70]}` is not <column>.{kname}(other, ...)")
+                    elif col_of(recv) == "other" or col_of(arg) == "other":
+                        n += 1
+                        if not (recv == SELF and col_of(arg) == "other"):
+                            probs.append(f"table on the right: `{show(x, it)[:70]}` is not self.{kname}(<column>, ...): the operands are "
+                                         f"swapped - v - T computes T - v")
+        ctx.ob("a.dispatch", f, "recursion-order", not probs and n >= 2, f"{n} column-by-column recursion(s) keep the written operand order", f.node,
+               message=f"{q}: " + ("; ".join(probs[:2]) or "the column-by-column recursions over a 2-D operand were not found"))
+
+
 def _table(ctx) -> None:
     """Every Table built by the table kernel holds op_func(col, other) for every column of self, or op_func(left, right) for the
     zipped columns of both tables where the widths were compared first - on the symx sites of the function."""
@@ -1153,6 +1194,9 @@ def _resolve(ctx) -> None:
 
 _V, _T = "vector", "table"
 MUTANTS = [
+    dict(id="table-on-the-right-operands-swapped", module=_V, old="				self._elementwise_operation(col, op_func, op_name, op_symbol) \n				for col in other.cols()",
+         new="				col._elementwise_operation(self, op_func, op_name, op_symbol) \n				for col in other.cols()", rules=["a.dispatch"],
+         desc="v - T computes T - v (seeded R5-C05-2 in its smallest form)"),
     dict(id="date-add-vector-by-label-only", module=_V,
          old="				or (len(other) > 0 and all(y is None or (isinstance(y, int) and not isinstance(y, bool)) for y in other))):",
          new="				):", rules=["e.wrappers"], desc="reverts fix 6d048d2"),
